@@ -43,7 +43,7 @@ def main():
            {"e": 8, "c": 1, "f": True}, {"e": 9, "c": 1, "f": True}, {"e": 10, "c": 1, "f": False}, {"e": 11, "c": 1, "f": False},
            {"e": 12, "c": 1, "f": False}, {"e": 13, "c": 1, "f": False}]
     # documents: the maps / absent / records documents for evaluators, a few containers for filters
-    pick = [i for i, n in enumerate(names) if n in ("maps", "maps-b", "absent", "absent-b", "records", "items", "smap", "map-err", "nil", "arr-if", "arr-maps")]
+    pick = [i for i, n in enumerate(names) if n in ("maps", "maps-b", "absent", "absent-b", "records", "items", "ifaces", "smap", "map-err", "nil", "arr-if", "arr-maps")]
     docs_sel = [docs[i] for i in pick]
     # the harness rebuilds documents by index into the concatenated worlds: keep the full list, restrict calls in the model
     if not quick:
